@@ -199,6 +199,8 @@ def extra_cases(tier):
                 steps.extend(copy.deepcopy(ops[k]))
             steps.append(['walk', 'next', 'list'])
             steps.append(['walk', 'prev', 'members'])
+            steps.append(['step', 'next' if len(combo) % 2 else 'prev',
+                          'Amp'])
             batch.append(steps)
             if len(batch) >= 150:
                 cases.append(_enum_case(batch))
@@ -316,6 +318,62 @@ def check_step(lst, direction, start, violation, where):
                   '{}: {}({!r}) on {} gave {!r}, nearest remaining is {!r}'
                   .format(where, direction, start, ref, got, want))
         return False
+    return True
+
+
+def check_vm_step(ls, direction, start, violation, where):
+    """The VM's own stepping (DNEXT / DNEXTM / DISC / DISCM) from `start`,
+    present or since removed, over lights, group names and member lists."""
+    from bardolph.vm.vm_discover import VmDiscover
+    from bardolph.vm.vm_codes import Operand
+    from bardolph.vm.call_stack import CallStack
+    from bardolph.vm.machine import Registers
+
+    def nearest(ref, probe):
+        if direction == 'next':
+            return next((x for x in ref if x > probe), None)
+        return next((x for x in reversed(ref) if x < probe), None)
+
+    reg = Registers()
+    vd = VmDiscover(CallStack({}), reg)
+    reg.disc_forward = direction == 'next'
+    cases = [(Operand.LIGHT, None, sorted(ls.get_light_names())),
+             (Operand.GROUP, None, sorted(ls.get_group_names())),
+             (Operand.LOCATION, None, sorted(ls.get_location_names()))]
+    for g in ls.get_group_names():
+        cases.append((Operand.GROUP, g, sorted(ls.get_group_lights(g))))
+    for g in ls.get_location_names():
+        cases.append((Operand.LOCATION, g,
+                      sorted(ls.get_location_lights(g))))
+    for operand, member_of, ref in cases:
+        reg.operand = operand
+        for probe in {start} | set(ref):
+            if member_of is None:
+                vd.dnext(probe)
+            else:
+                vd.dnextm(member_of, probe)
+            got = None if reg.result is Operand.NULL else reg.result
+            want = nearest(ref, probe)
+            if got != want:
+                violation('vm-stepping',
+                          '{}: VM {} step from {!r} over {} {} gave {!r}, '
+                          'nearest remaining is {!r}'.format(
+                              where, direction, probe,
+                              'members of ' + member_of if member_of
+                              else operand.name, ref, got, want))
+                return False
+        # start of the iteration
+        if member_of is None:
+            vd.disc()
+        else:
+            vd.discm(member_of)
+        got = None if reg.result is Operand.NULL else reg.result
+        want = (ref[0] if direction == 'next' else ref[-1]) if ref else None
+        if got != want:
+            violation('vm-stepping',
+                      '{}: VM iteration start over {} gave {!r}, expected '
+                      '{!r}'.format(where, ref, got, want))
+            return False
     return True
 
 
@@ -488,6 +546,7 @@ def _run_api(sim, sc, steps, violation, probe, info):
                            violation, where + ' group ' + g)
             check_step(ls.get_group_names(), step[1], 'G2', violation,
                        where + ' group names')
+            check_vm_step(ls, step[1], step[2], violation, where)
         elif kind == 'walk':
             _walks(ls, step, violation, where)
         if not check_invariants(ls, model, violation, where):
@@ -668,6 +727,7 @@ def _run_wire(sim, sc, steps, violation, probe, info, threaded):
         elif kind == 'step':
             check_step(ls.get_light_names(), step[1], step[2], violation,
                        where)
+            check_vm_step(ls, step[1], step[2], violation, where)
         elif kind == 'walk':
             _walks(ls, step, violation, where)
         if not check_invariants(ls, model, violation, where):
